@@ -247,6 +247,10 @@ func genCacheEvents(t *rapid.T, c *CacheCase, nev int) {
 			e.Kind = 1
 		}
 		e.CreatedAt = int64(rapid.IntRange(0, 6).Draw(t, "created_at"))
+		if rapid.IntRange(0, 11).Draw(t, "xts") == 0 {
+			// the ends of the int64 range and a time before 1970
+			e.CreatedAt = rapid.SampledFrom([]int64{-1, -5, math.MinInt64, math.MinInt64 + 1, math.MaxInt64, math.MaxInt64 - 1}).Draw(t, "xtsv")
+		}
 		e.Content = fmt.Sprintf("c%d", i)
 		if ref.ClassOf(e.Kind) == ref.Addressable {
 			dk := rapid.IntRange(0, 5).Draw(t, "dkind")
